@@ -34,7 +34,7 @@ def _variant(doc):
     return doc + "x"
 
 
-def record(jp, env, q, doc, edoc, extra=None):
+def record(jp, env, q, doc, edoc, extra=None, kept=None):
     def run(path, kind, fn):
         res = {"path": path, "kind": kind, "locs": [], "none": False, "cls": "", "jp": True}
         try:
@@ -88,6 +88,9 @@ def record(jp, env, q, doc, edoc, extra=None):
     results.append(run("env.compile.apply", "list", lambda: e.compile(q).apply(doc)))
     results.append(run("env.compile.finditer", "list", lambda: list(e.compile(q).finditer(doc))))
     results.append(run("env.compile.find_one", "first", lambda: e.compile(q).find_one(doc)))
+    if kept is not None:
+        results.append(run("query compiled before the environment was reconfigured .find", "list", lambda: kept.find(doc)))
+        results.append(run("query compiled before the environment was reconfigured .find_one", "first", lambda: kept.find_one(doc)))
     rec = {"op": "entry", "q": core.enc_text(q), "doc": edoc, "results": results}
     if extra:
         rec.update(extra)
@@ -135,6 +138,15 @@ def run(chk: core.Check, tier: str, seed: int) -> None:
         for d in deep:
             for q in ("$..*", "$..a", "$..[?@]", "$[0]..*", "$.*", "$..[0]"):
                 recs.append(record(jp, env, q, d, core.enc_value(d), extra={"maxdepth": lim}))
+        # the environment's configuration is read when a query is applied: a query compiled earlier, under another
+        # limit / integer range / mode set on the same environment object, is one more entry point that must agree
+        env2 = probes.make_env(jp, [], [], max_depth=lim + 2)
+        qs = ("$..*", "$..a", "$..[?@]", "$[0]..*", "$[?@..a]", "$..[0]")
+        kept = {q: env2.compile(q) for q in qs}
+        env2.max_recursion_depth = lim
+        for d in deep:
+            for q in qs:
+                recs.append(record(jp, env2, q, d, core.enc_value(d), extra={"maxdepth": lim}, kept=kept[q]))
     for r in recs:
         chk.nontrivial.add((tuple(r["q"]), str(r["doc"])[:100], len(r["results"])))
     ex = recs[5]
